@@ -299,6 +299,9 @@ def run(tier, seed):
     rep.cov["traces_validated_against_impl"] = len(texts)
     rep.cov["exhaustive"] = True
     rep.notes["model_mismatches"] = mism
+    import kwprobe
+    kwprobe.probe(rep, "apply", "adapters:kwargs")
+    kwprobe.probe(rep, "sync", "adapters:kwargs")
     if not proofs_ok:
         rep.violation("proof-broken", {"broken": rep.notes.get("broken_file", "?"), "log": rep.notes.get("build_log_tail", "")[-1500:]}, no_input=True)
     return rep.finish()
